@@ -42,6 +42,15 @@ register("C14", _load_c14, {"quick": {"runs": 24000, "wall": 90},
                             "thorough": {"runs": 600000, "wall": 1200}})
 
 
+def _load_c01():
+    from .props.c01 import C01
+    return [C01()]
+
+
+register("C01", _load_c01, {"quick": {"runs": 16000, "wall": 120},
+                            "thorough": {"runs": 500000, "wall": 1800}})
+
+
 def _load_c09():
     from .props.c09 import C09
     return [C09()]
